@@ -31,6 +31,27 @@ def _with_feed(draws):
     srandom._use_deterministic_prng = True
 
 
+def h_randint(a: int, b: int, d0: int, d1: int) -> bool:
+    """
+    the real randint on a scripted stream d0, d1, 0, 0, ...: ValueError exactly for an empty or over-wide range; otherwise the
+    value is a + (first draw below the acceptance limit) mod (b - a + 1), inside [a, b]   (independent of how randint is
+    factored into helpers - this harness is what remains when the source-level translation cannot encode a refactoring)
+    pre: -40 <= a <= 40 and -40 <= b <= 40 and 0 <= d0 < TWO32 and 0 <= d1 < TWO32
+    post: _
+    """
+    _with_feed([d0, d1, 0])
+    try:
+        r = drandom.randint(a, b)
+    except ValueError:
+        return a > b
+    if a > b:
+        return False
+    w = b - a + 1
+    limit = TWO32 - TWO32 % w
+    acc = d0 if d0 < limit else (d1 if d1 < limit else 0)
+    return a <= r <= b and r == a + acc % w
+
+
 def h_choice(d0: int, n: int) -> bool:
     """
     choice(cand) returns cand[k] for exactly the index randint(0, len-1) yields from the same draw
